@@ -258,6 +258,8 @@ def roots(F, node, site=None, expand_loop_vars=False, _seen=None, depth=0):
         return {("ctor", n.get("q"), tuple(frozenset(roots(F, a, site, expand_loop_vars, _seen, depth + 1)) for a in args))}
     if k == "new":
         return {("new", n.get("at"), n.get("l"))}
+    if k == "initlist" and len(n.get("args", [])) == 1:
+        return roots(F, n["args"][0], site, expand_loop_vars, _seen, depth + 1)
     return {("expr", F.text(n))}
 
 
